@@ -15,4 +15,12 @@ PLAN = {
         "explanation": "contracts on every Time method; comparisons/structure in model R (exact rationals), "
                        "rounding clauses in model F (IEEE binary64, bit precise)",
     },
+    "C15": {
+        "sidecars": ["contracts.periodic_c15"],
+        "timeout_ms": {"quick": 180000, "thorough": 600000},
+        "level": "proof",
+        "trusted": COMMON_TRUSTED,
+        "explanation": "contracts on both PeriodicBoundaries classes: range/idempotence bit-precisely (model F), "
+                       "congruence and uniqueness in the reals (model R), loops by invariant",
+    },
 }
